@@ -502,10 +502,116 @@ def try_else_finally(rng, variant):
     return p
 
 
+def loop_else(rng, variant):
+    """for / while loops with an `else:` clause: assignments in the else, `break` / `continue` in the else of an INNER loop
+    (they target the OUTER loop), a redefinition later in the outer body, reads after the loops; nested two deep"""
+    b = _B(rng)
+    b.features.update(['loop_else'])
+    _head(b)
+    outer = ['for i in n():', 'while d():'][variant % 2]
+    inner = ['for j in n():', 'while d():'][(variant // 2) % 2]
+    jump = ['break', 'continue', None][(variant // 4) % 3]
+    inner_break = (variant // 12) % 2
+    redefine = (variant // 24) % 2
+    b.e(1, 'r = tr(%d, 9)' % b.slot())
+    b.e(1, outer)
+    b.e(2, 'y = tr(%d, y)' % b.slot())
+    b.e(2, inner)
+    b.e(3, 'z = tr(%d, z)' % b.slot())
+    if inner_break:
+        b.e(3, 'if d():'); b.e(4, 'break')
+    b.e(2, 'else:')
+    b.e(3, 'r = tr(%d, 1)' % b.slot())                 # definition made in the else clause
+    if jump:
+        if variant % 5 == 0:
+            b.e(3, 'if d():'); b.e(4, jump)
+        else:
+            b.e(3, jump)
+    if redefine:
+        b.e(2, 'r = tr(%d, 0)' % b.slot())              # redefinition later in the outer body
+    else:
+        b.e(2, 'w = tr(%d, r)' % b.slot())
+    if variant % 3 == 0:
+        b.e(1, 'else:'); b.e(2, 'w = tr(%d, r, w)' % b.slot())
+    b.e(1, 'return tr(0, r, w)')
+    p = b.prog('loop_else')
+    p.decisions = [[1, 1, 0, 0, 0, 0, 0, 0], [2, 0, 1, 0, 0, 0, 0, 0], [1, 2, 0, 1, 0, 0, 0], [1, 1, 1, 0, 1, 0, 0, 0], [2, 1, 0, 1, 1, 0, 0, 0],
+                   [1, 0, 1, 1, 1, 0, 0], [0] * 6, [1, 1, 1, 1, 1, 1, 0, 0]]
+    return p
+
+
+def early_binding(rng, variant):
+    """the early-binding idiom: a lambda / nested-def parameter whose DEFAULT reads the enclosing variable of the SAME name
+    (`lambda k=k: …`, `fs.append(lambda i=i: …)`, `def g(i=i)`), inside loops and after a conditional rebinding"""
+    b = _B(rng)
+    b.features.update(['lambda', 'early_binding'])
+    _head(b)
+    form = variant % 6
+    wrap = (variant // 6) % 3
+    if wrap == 0:
+        b.e(1, 'if d():'); b.e(2, 'x = tr(%d, c)' % b.slot())
+    elif wrap == 1:
+        b.e(1, 'for j in n():'); b.e(2, 'x = tr(%d, j)' % b.slot())
+    if form == 0:
+        b.e(1, 'k = lambda x=x: tr(%d, x)' % b.slot()); b.e(1, 'y = k()')
+    elif form == 1:
+        b.e(1, 'fs = []'); b.e(1, 'for i in n():'); b.e(2, 'fs.append(lambda i=i: i + x)'); b.e(1, 'y = [g() for g in fs]')
+    elif form == 2:
+        b.e(1, 'fs = []'); b.e(1, 'for i in n():'); b.e(2, 'def g(i=i, x=x):'); b.e(3, 'return tr(%d, i, x)' % b.slot()); b.e(2, 'fs.append(g)')
+        b.e(1, 'y = [g() for g in fs]')
+    elif form == 3:
+        b.e(1, 'k = (lambda x=x, y=y: (x, y))'); b.e(1, 'if d():'); b.e(2, 'x = tr(%d)' % b.slot()); b.e(1, 'y = k()')
+    elif form == 4:
+        b.e(1, 'y = (lambda x=x + 1: x)()')
+    else:
+        b.e(1, 'k = lambda *, x=x: x'); b.e(1, 'while d():'); b.e(2, 'x = x + 1'); b.e(2, 'k = lambda *, x=x: x'); b.e(1, 'y = k()')
+    b.e(1, 'return tr(0, y)')
+    p = b.prog('early_binding')
+    p.decisions = [[1, 1, 0, 0, 0, 0], [0, 2, 0, 0, 0], [2, 2, 1, 0, 0, 0], [1, 0, 1, 1, 0, 0], [0] * 5, [2, 1, 1, 1, 0, 0]]
+    return p
+
+
+def sibling_closure(rng, variant):
+    """a nested function g WITHOUT inner def / lambda that writes a variable of the enclosing function (`nonlocal`) and then calls
+    a SIBLING local function h reading that variable: the use-before-overwrite obligation lives in g's own graph"""
+    b = _B(rng)
+    b.features.update(['nested_def', 'nonlocal', 'sibling_closure'])
+    _head(b)
+    order = variant % 2               # 0: h defined before g (reaches g through external_defs), 1: after g
+    form = (variant // 2) % 4
+    hbody = ['return tr(%d, y)', 'return tr(%d, y, x)'][(variant // 8) % 2] % b.slot()
+
+    def def_h():
+        b.e(1, 'def h():'); b.e(2, hbody)
+
+    def def_g():
+        b.e(1, 'def g(p):')
+        b.e(2, 'nonlocal y')
+        if form == 0:
+            b.e(2, 'y = tr(%d, p)' % b.slot()); b.e(2, 'r = h()')
+        elif form == 1:
+            b.e(2, 'if d():'); b.e(3, 'y = tr(%d, p)' % b.slot()); b.e(2, 'r = h()')
+        elif form == 2:
+            b.e(2, 'r = 0'); b.e(2, 'for q in n():'); b.e(3, 'y = y + q'); b.e(3, 'r = r + h()')
+        else:
+            b.e(2, 'y = tr(%d, p)' % b.slot()); b.e(2, 'if d():'); b.e(3, 'r = h()'); b.e(2, 'else:'); b.e(3, 'r = p')
+        b.e(2, 'return r')
+    if order == 0:
+        def_h(); def_g()
+    else:
+        def_g(); def_h()
+    b.e(1, 'w = g(a)')
+    b.e(1, 'return tr(0, w)')
+    p = b.prog('sibling_closure')
+    p.decisions = [[1, 1, 0, 0], [0, 0, 0], [2, 1, 1, 0], [1, 0, 1, 0]]
+    return p
+
+
 FAMILIES = [('zero_trip_for', zero_trip, 30), ('closure', closure, 60), ('lambda_later', lambda_later, 6),
             ('closure_binds_local', closure_binds, 12), ('misc', misc, 18),
             ('def_time_reads', def_time, 27), ('closure_in_branch', closure_in_branch, 72),
-            ('prefix_names', prefix_names, 80), ('starred_target', starred_targets, 72), ('try_else_finally', try_else_finally, 48)]
+            ('prefix_names', prefix_names, 80), ('starred_target', starred_targets, 72), ('try_else_finally', try_else_finally, 48),
+            ('loop_else', loop_else, 48), ('early_binding', early_binding, 18), ('sibling_closure', sibling_closure, 16)]
 
 
 def scenario_programs(rng, scale=1):
